@@ -162,6 +162,11 @@ def evaluate_batch(batch, rng, static_only):
                 ma["r"] = info["res"]
                 ma["nres"] = info["nres"]
             bb = {k: v for k, v in b.items() if k != "npred" and (k != "nres" or "nres" in ma)}
+            if ma.get("r") == ["cycle"] and bb.get("r") == ["cycle"]:
+                # sort_types hit a cycle (asymmetric order, finding D3): the lookup failed on both sides; whether the
+                # abandoned resolution counts as one is not modelled (C20 is about lookups that succeeded)
+                ma.pop("nres", None)
+                bb.pop("nres", None)
             predicted[0] = True
             stop_after = False
             if not corr_ok:
